@@ -1,8 +1,8 @@
 package main
 
 import (
-	"go/ast"
 	"fmt"
+	"go/ast"
 	"strings"
 
 	"golang.org/x/tools/go/ssa"
